@@ -452,7 +452,7 @@ func Iterate(val Value, it Iteratee) (int, error) {
 		}
 		return ln, nil
 	case reflect.Map:
-		keys := r.MapKeys()
+		iter := r.MapRange()
 		ln := r.Len()
 		l := Loop{
 			ln == 1,
@@ -463,9 +463,8 @@ func Iterate(val Value, it Iteratee) (int, error) {
 			true,
 			ln,
 		}
-		for i, k := range keys {
-			v := r.MapIndex(k)
-			brk, err := it(k.Interface(), v.Interface(), l)
+		for i := 0; iter.Next(); i++ {
+			brk, err := it(iter.Key().Interface(), iter.Value().Interface(), l)
 			if brk || err != nil {
 				return i + 1, err
 			}
